@@ -21,3 +21,24 @@ pub fn point(name: &'static str, a: u64, b: u64) {
     hook(name, a, b);
   }
 }
+
+// Activation-height overrides, so that the "before the first inscription /
+// rune height" paths (header-only blocks, node-fetched input values) can be
+// reached on a short regtest chain. u64::MAX means "no override".
+use std::sync::atomic::{AtomicU64, Ordering};
+
+static FIRST_INSCRIPTION_HEIGHT: AtomicU64 = AtomicU64::new(u64::MAX);
+static FIRST_RUNE_HEIGHT: AtomicU64 = AtomicU64::new(u64::MAX);
+
+pub fn set_first_heights(inscription: Option<u32>, rune: Option<u32>) {
+  FIRST_INSCRIPTION_HEIGHT.store(inscription.map(u64::from).unwrap_or(u64::MAX), Ordering::SeqCst);
+  FIRST_RUNE_HEIGHT.store(rune.map(u64::from).unwrap_or(u64::MAX), Ordering::SeqCst);
+}
+
+pub fn first_inscription_height_override() -> Option<u32> {
+  u32::try_from(FIRST_INSCRIPTION_HEIGHT.load(Ordering::SeqCst)).ok()
+}
+
+pub fn first_rune_height_override() -> Option<u32> {
+  u32::try_from(FIRST_RUNE_HEIGHT.load(Ordering::SeqCst)).ok()
+}
